@@ -66,8 +66,8 @@ Proof.
   assert (E2 : filter is_unknown_warning (w_ref_of sax reflist ref) = []).
   { unfold w_ref_of. destruct (ref_unparseable sax reflist ref); [|reflexivity]. vm_compute. reflexivity. }
   assert (E3 : filter is_unknown_warning e_l10n = []).
-  { destruct (l10n_error sax _ l10n) as [[[line col] msg]|]; [|subst; reflexivity].
-    destruct He as [p [_ ->]]. simpl. unfold is_unknown_warning, var_issue. simpl.
+  { subst e_l10n. destruct (l10n_error sax _ l10n) as [[[line col] msg]|]; [|reflexivity].
+    cbn [filter]. unfold is_unknown_warning, var_issue. cbn [i_error].
     replace (fst y_xmlparse) with true by (vm_compute; reflexivity). reflexivity. }
   assert (E4 : filter is_unknown_warning
                  (map (unknown_issue (warn_suffix reflist inContext)) (missing_names reflist l10nlist)) =
@@ -133,8 +133,8 @@ Proof.
   assert (E2 : filter (is_issue y) (w_ref_of sax reflist ref) = []).
   { unfold w_ref_of. destruct (ref_unparseable sax reflist ref); [|reflexivity]. cbn [filter]. rewrite F2. reflexivity. }
   assert (E3 : filter (is_issue y) e_l10n = []).
-  { destruct (l10n_error sax _ l10n) as [[[line col] msg]|]; [|subst; reflexivity].
-    destruct He as [p [_ ->]]. cbn [filter]. unfold is_issue, var_issue. cbn [i_cat]. rewrite F3.
+  { subst e_l10n. destruct (l10n_error sax _ l10n) as [[[line col] msg]|]; [|reflexivity].
+    cbn [filter]. unfold is_issue, var_issue. cbn [i_cat]. rewrite F3.
     rewrite andb_false_r. reflexivity. }
   assert (E4 : filter (is_issue y)
                  (map (unknown_issue (warn_suffix reflist inContext)) (missing_names reflist l10nlist)) = []).
